@@ -151,7 +151,9 @@ def _is_numeric_constant(value: ast.expr) -> bool:
     """
     if isinstance(value, ast.UnaryOp) and isinstance(value.op, (ast.USub, ast.UAdd)):
         value = value.operand
-    return isinstance(value, ast.Constant) and isinstance(value.value, (int, float))
+    if not isinstance(value, ast.Constant) or isinstance(value.value, bool):
+        return False
+    return isinstance(value.value, (int, float))
 
 
 def _is_uppercase_name_target(target: ast.expr) -> bool:
@@ -227,4 +229,4 @@ def _is_int_key(key: ast.expr | None) -> bool:
     Returns:
         True if key is an integer constant
     """
-    return isinstance(key, ast.Constant) and isinstance(key.value, int)
+    return isinstance(key, ast.Constant) and isinstance(key.value, int) and not isinstance(key.value, bool)
